@@ -1,8 +1,19 @@
 pub mod adapters;
 pub mod c01;
+pub mod c02;
+pub mod c03;
+pub mod c05;
+pub mod c06;
+pub mod c10;
+pub mod c12;
+pub mod c16;
+pub mod dispatch;
+pub mod c07;
+pub mod c09;
 pub mod calls;
 pub mod gen;
 pub mod ops;
+pub mod streams;
 
 use ops::TableDomain;
 use std::collections::BTreeMap;
@@ -27,7 +38,7 @@ pub struct PropDef {
 }
 
 pub fn all_props() -> Vec<&'static PropDef> {
-    vec![&c01::DEF]
+    vec![&c01::DEF, &c02::DEF, &c03::DEF, &c03::DEF04, &c05::DEF, &c06::DEF, &c10::DEF, &c12::DEF, &c16::DEF, &c07::DEF, &c09::DEF]
 }
 
 pub fn build_name() -> String {
@@ -182,7 +193,13 @@ pub fn main_entry() -> i32 {
     let out = get("--out").unwrap_or_else(|| format!("{}/evidence/parts/{}-{}.json", verif, id, build_name()));
     let ctx = Ctx { property: id.clone(), tier, seed, build: build_name(), replay_dir: format!("{}/replays", verif) };
     let t0 = std::time::Instant::now();
-    let stats = (def.run)(&ctx, &env);
+    let stats = match vcore::engine::guarded(|| (def.run)(&ctx, &env)) {
+        Ok(s) => s,
+        Err(p) => {
+            println!("HARNESS-PANIC property={} (the check is broken, not the library): {}", id, p);
+            return 2;
+        }
+    };
     let wall = t0.elapsed().as_secs_f64();
     let mut stats = stats;
     stats.notes.push(format!("table domain measured from diagnostics: {:?}", env.tables.allowed));
